@@ -13,6 +13,9 @@
 //! cast <bits>               -> <as isize> <as usize> <as u32>
 //! un <floor|ceil|round|sqrt|abs> <bits> -> <bits> | nan
 //! ```
+//! `gen --kind c05` writes the C05 template programs with the output a plain-Rust value-semantics oracle
+//! expects (`exp=`): copy / nested write / push / pop / reverse sequences (`c05tmpl`), captured arrays under
+//! same-named locals (`c05scoped`), long strings built in functions, returned and kept as elements (`c05long`).
 //! `gen --seed S --n N [--kind main|product|float] [--bias b] [--max-stmts k]` writes request
 //! lines: every generated program text goes through the REAL front end (`pipeline::with_resolved`);
 //! accepted programs become `run` requests carrying the resolver's plan and the AST annotated with
@@ -22,7 +25,9 @@
 //! reads the real stdin); a worker that dies is restarted and the in-flight case answered
 //! `end=abort`. Implementation-level oracles that need no model, reported on stderr as
 //! `ORACLE-FAIL <1-based line> [Cxx] <what>`: same result when run twice `[C01]`, with and without
-//! the frame arena `[C02]`, with and without the optimisation plan `[C03]`.
+//! the frame arena `[C02]`, with and without the optimisation plan `[C03]`; a panic in one of those
+//! variant runs only `[C06]`. The answer line itself is the run WITH the plan and the frame arena (what
+//! the CLI does): its `end=panic|abort|timeout` on an accepted program is the C06 crash oracle of the checks.
 
 use std::io::{BufRead, BufReader, Write};
 use std::process::{Command, Stdio};
@@ -355,6 +360,12 @@ fn gen_c05(seed: u64, n: u64, out: &mut Out) {
     let mut rng = Rng::new(seed ^ 0xC05);
     let names = ["a", "b", "c"];
     for _ in 0..n {
+        if rng.chance(1, 5) {
+            let (src, exp) = c05_long(&mut rng);
+            let exp_hex: Vec<String> = exp.iter().map(|t| util::hex(t.as_bytes())).collect();
+            out.line(&request_with(&src, false, Some("c05long"), Some(&exp_hex.join(","))));
+            continue;
+        }
         if rng.chance(1, 3) {
             let (src, exp) = c05_scoped(&mut rng);
             let exp_hex: Vec<String> = exp.iter().map(|t| util::hex(t.as_bytes())).collect();
@@ -471,6 +482,255 @@ fn gen_c05(seed: u64, n: u64, out: &mut Out) {
         let exp_hex: Vec<String> = exp.iter().map(|t| util::hex(t.as_bytes())).collect();
         out.line(&request_with(&src, false, Some("c05tmpl"), Some(&exp_hex.join(","))));
     }
+}
+
+
+// ---------------------------------------------------------------- C05: long strings as elements
+
+/// Ways a function builds a string at run time and RETURNS it.
+#[derive(Clone, Copy, Debug, PartialEq)]
+enum Build {
+    /// `"r{i}:"` + piece * n, concatenated in a loop
+    Cat,
+    /// doubling (`s get s add s`) until long enough, then `slice(0, n)`: exactly n bytes
+    Dbl,
+    /// n pieces pushed to a local array, `"j{i}" add parts.join("/")`
+    Join,
+    /// `"a" * n` built in a loop, `replace("a", "{i}z")`: 2n bytes
+    Repl,
+    /// `cat(i, n).to_uppercase()`
+    Upper,
+    /// `"<{h}|{h}>"` of a local `h get cat(i, n)`
+    Interp,
+    /// the result of `cat(i, n)` returned once more
+    Wrap,
+}
+
+const LONG_PIECE: &str = " 0123456789";
+
+impl Build {
+    const ALL: [Build; 7] = [Build::Cat, Build::Dbl, Build::Join, Build::Repl, Build::Upper, Build::Interp, Build::Wrap];
+    fn name(self) -> &'static str {
+        match self {
+            Build::Cat => "cat",
+            Build::Dbl => "dbl",
+            Build::Join => "jn",
+            Build::Repl => "rp",
+            Build::Upper => "up",
+            Build::Interp => "itp",
+            Build::Wrap => "wrap",
+        }
+    }
+    /// Needs `cat` as well.
+    fn uses_cat(self) -> bool {
+        matches!(self, Build::Upper | Build::Interp | Build::Wrap)
+    }
+    fn def(self, piece: &str) -> String {
+        match self {
+            Build::Cat => format!(
+                "do cat(i, n) start\n    make line get \"r{{i}}:\"\n    make k get 0\n    jasi (k small pass n) start\n        line get line add \"{piece}\"\n        k get k add 1\n    end\n    return line\nend\n"
+            ),
+            Build::Dbl => "do dbl(i, n) start\n    make s get \"d{i}.\"\n    jasi (s.len() small pass n) start\n        s get s add s\n    end\n    return s.slice(0, n)\nend\n".to_string(),
+            Build::Join => format!(
+                "do jn(i, n) start\n    make parts get []\n    make k get 0\n    jasi (k small pass n) start\n        parts.push(\"{piece}\")\n        k get k add 1\n    end\n    return \"j{{i}}\" add parts.join(\"/\")\nend\n"
+            ),
+            Build::Repl => "do rp(i, n) start\n    make base get \"\"\n    make k get 0\n    jasi (k small pass n) start\n        base get base add \"a\"\n        k get k add 1\n    end\n    return base.replace(\"a\", \"{i}z\")\nend\n".to_string(),
+            Build::Upper => "do up(i, n) start return cat(i, n).to_uppercase() end\n".to_string(),
+            Build::Interp => "do itp(i, n) start\n    make h get cat(i, n)\n    return \"<{h}|{h}>\"\nend\n".to_string(),
+            Build::Wrap => "do wrap(i, n) start return cat(i, n) end\n".to_string(),
+        }
+    }
+    /// The argument `n` that brings the result close to (for `Dbl`, and `Cat` with a one-byte piece: exactly to)
+    /// `len` bytes.
+    fn arg_for(self, len: usize, piece: &str) -> usize {
+        let p = piece.len();
+        match self {
+            Build::Cat | Build::Upper | Build::Wrap => len.saturating_sub(3).div_ceil(p),
+            Build::Dbl => len.max(1),
+            Build::Join => (len.saturating_sub(1) / (p + 1)).max(1),
+            Build::Repl => len.div_ceil(2),
+            Build::Interp => (len.saturating_sub(3) / 2).saturating_sub(3).div_ceil(p),
+        }
+    }
+    /// What the function returns, with plain Rust strings.
+    fn text(self, i: usize, n: usize, piece: &str) -> String {
+        let cat = |n: usize| format!("r{i}:{}", piece.repeat(n));
+        match self {
+            Build::Cat | Build::Wrap => cat(n),
+            Build::Dbl => {
+                let mut s = format!("d{i}.");
+                while s.len() < n {
+                    s = format!("{s}{s}");
+                }
+                s[..n.min(s.len())].to_string()
+            }
+            Build::Join => format!("j{i}{}", vec![piece; n].join("/")),
+            Build::Repl => format!("{i}z").repeat(n),
+            Build::Upper => cat(n).to_uppercase(),
+            Build::Interp => format!("<{0}|{0}>", cat(n)),
+        }
+    }
+}
+
+/// C05 with LONG strings as array elements: strings around and above the largest pool slot (255, 256, 257, 300,
+/// 1000 bytes) are BUILT at run time inside functions (loop concatenation, doubling + slice, join, replace,
+/// upper-casing, interpolation), RETURNED (also through a second function), and kept: pushed, index-assigned, put
+/// into array literals and nested arrays, bound to variables, passed on to a function that stores them in a
+/// captured array; arrays are copied. Then storage is allocated through OTHER names (numbers pushed to another
+/// array, more strings built and dropped, nested arrays), and every kept element is compared (`na`) with an
+/// independently obtained copy (a literal, or the same text built in place without a call), its length is
+/// printed, and in a third of the programs the elements and arrays themselves. "Every element keeps its value
+/// until it is itself overwritten": the expected output is computed here from plain Rust strings.
+fn c05_long(rng: &mut Rng) -> (String, Vec<String>) {
+    let piece = *rng.pick(&["x", LONG_PIECE, "ab", "-+-+-+-", "0123456789", "Naija "]);
+    let targets: [usize; 16] = [255, 256, 257, 257, 258, 264, 288, 300, 300, 336, 511, 1000, 200, 129, 64, 8];
+    let mut src = String::new();
+    let mut exp: Vec<String> = Vec::new();
+    // which builders this program uses
+    let mut used: Vec<Build> = Vec::new();
+    for _ in 0..1 + rng.below(3) {
+        let b = *rng.pick(&Build::ALL);
+        if !used.contains(&b) {
+            used.push(b);
+        }
+    }
+    if used.iter().any(|b| b.uses_cat()) && !used.contains(&Build::Cat) {
+        used.insert(0, Build::Cat);
+    }
+    for b in &used {
+        src.push_str(&b.def(piece));
+    }
+    src.push_str("do same(t) start return t end\n");
+    src.push_str("make rows get []\ndo keep(t) start rows.push(t) end\nmake grid get [[], [\"seed\"]]\nmake nums get []\nmake other get []\n");
+    let mut rows: Vec<String> = Vec::new();
+    let mut grid0: Vec<String> = Vec::new();
+    let mut kept: Option<Vec<String>> = None;
+    let mut vars: Vec<(String, String)> = Vec::new(); // plain variables holding a long string
+    let mut next_i = 0usize;
+    // one call `b(i, n)`: (source text, value)
+    let mut fresh = |rng: &mut Rng| -> (String, String) {
+        let b = *rng.pick(&used);
+        let len = if rng.chance(1, 6) { rng.range(240, 280) as usize } else { *rng.pick(&targets) };
+        let len = if len > 600 && piece.len() < 6 && b != Build::Dbl { 300 } else { len }; // keep the loops short
+        let n = b.arg_for(len, piece);
+        let i = next_i % 10;
+        next_i += 1;
+        (format!("{}({i}, {n})", b.name()), b.text(i, n, piece))
+    };
+    let noise = |rng: &mut Rng, src: &mut String| match rng.below(5) {
+        0 | 1 => {
+            let k = 20 + rng.below(40);
+            src.push_str(&format!("make c get 0\njasi (c small pass {k}) start\n    nums.push(c)\n    c get c add 1\nend\n"));
+        }
+        2 => src.push_str(&format!("other.push(same(\"{}\" add \"!\"))\nother.push([nums.len(), [1, 2]])\n", "o".repeat(20 + rng.below(300) as usize))),
+        3 => src.push_str("make tmp get [[1, 2], [3]]\ntmp[0].push([4, [5]])\nnums.push(tmp.len())\n"),
+        _ => src.push_str(&format!("make junk get \"{}\" add to_string(nums.len())\nother.push(junk.len())\n", "j".repeat(250 + rng.below(20) as usize))),
+    };
+    let steps = 2 + rng.below(5);
+    for step in 0..steps {
+        let (call, text) = fresh(rng);
+        match rng.below(9) {
+            0 | 1 => {
+                src.push_str(&format!("rows.push({call})\n"));
+                rows.push(text);
+            }
+            2 if !rows.is_empty() => {
+                let j = rng.below(rows.len() as u64) as usize;
+                src.push_str(&format!("rows[{j}] get {call}\n"));
+                rows[j] = text;
+            }
+            3 if step == 0 => {
+                let (call2, text2) = fresh(rng);
+                src.push_str(&format!("rows get [{call}, {call2}]\n"));
+                rows = vec![text, text2];
+            }
+            4 => {
+                let name = format!("s{}", vars.len());
+                src.push_str(&format!("make {name} get {call}\n"));
+                if rng.chance(1, 2) {
+                    src.push_str(&format!("rows.push({name})\n"));
+                    rows.push(text.clone());
+                }
+                vars.push((name, text));
+            }
+            5 => {
+                src.push_str(&format!("grid[0].push({call})\n"));
+                grid0.push(text);
+            }
+            6 => {
+                src.push_str(&format!("keep({call})\n"));
+                rows.push(text);
+            }
+            7 => {
+                src.push_str(&format!("rows.push(same({call}))\n"));
+                rows.push(text);
+            }
+            _ => {
+                src.push_str(&format!("rows.push({call})\nmake kept get rows\n"));
+                rows.push(text);
+                kept = Some(rows.clone());
+            }
+        }
+        if rng.chance(1, 2) {
+            noise(rng, &mut src);
+        }
+    }
+    noise(rng, &mut src);
+    // every kept string against an independent copy
+    let print_all = rng.chance(1, 3);
+    let mut checks: Vec<(String, String)> = Vec::new();
+    for (j, t) in rows.iter().enumerate() {
+        checks.push((format!("rows[{j}]"), t.clone()));
+    }
+    if let Some(k) = &kept {
+        for (j, t) in k.iter().enumerate() {
+            checks.push((format!("kept[{j}]"), t.clone()));
+        }
+    }
+    for (j, t) in grid0.iter().enumerate() {
+        checks.push((format!("grid[0][{j}]"), t.clone()));
+    }
+    for (name, t) in &vars {
+        checks.push((name.clone(), t.clone()));
+    }
+    for (k, (place, t)) in checks.iter().enumerate() {
+        let in_place = t.starts_with('r') && t.contains(':') && rng.chance(1, 2);
+        if in_place {
+            // the same text built here, no call involved
+            let (head, tail) = t.split_at(t.find(':').unwrap() + 1);
+            let n = if piece.is_empty() { 0 } else { tail.len() / piece.len() };
+            src.push_str(&format!(
+                "make want{k} get \"{head}\"\nmake w get 0\njasi (w small pass {n}) start\n    want{k} get want{k} add \"{piece}\"\n    w get w add 1\nend\n"
+            ));
+        } else {
+            src.push_str(&format!("make want{k} get \"{t}\"\n"));
+        }
+        src.push_str(&format!("shout({place} na want{k})\nshout({place}.len())\n"));
+        exp.push("true".to_string());
+        exp.push(t.len().to_string());
+        if rng.chance(1, 4) {
+            noise(rng, &mut src);
+        }
+    }
+    src.push_str("shout(rows.len())\nshout(grid[1])\n");
+    exp.push(rows.len().to_string());
+    exp.push("[\"seed\"]".to_string());
+    if print_all {
+        // the texts themselves, last: a damaged one may not even be printable
+        let show = |xs: &[String]| V::Arr(xs.iter().map(|t| V::Str(t.clone())).collect()).show(true);
+        src.push_str("shout(rows)\nshout(grid[0])\n");
+        exp.push(show(&rows));
+        exp.push(show(&grid0));
+        if let Some(k) = &kept {
+            src.push_str("shout(kept)\n");
+            exp.push(show(k));
+        }
+        for (name, t) in &vars {
+            src.push_str(&format!("shout({name})\n"));
+            exp.push(t.clone());
+        }
+    }
+    (src, exp)
 }
 
 /// A non-empty array of 2..3 non-empty flat sub-arrays.
@@ -841,6 +1101,13 @@ fn answer(line: &str, lineno: usize) -> String {
             let noplan = exec(&text, true, false, allow);
             if noplan != main {
                 eprintln!("ORACLE-FAIL {lineno} [C03] plan vs no plan: {main} vs {noplan}");
+            }
+            // C06 speaks about every way of running an accepted program: a crash that only the run without
+            // the frame arena / without the optimisation plan shows is a crash
+            for (how, r) in [("frame=None", &noframe), ("no optimisation plan", &noplan)] {
+                if r.contains("end=panic") && !main.contains("end=panic") {
+                    eprintln!("ORACLE-FAIL {lineno} [C06] accepted program panics in the run with {how}: {r} (plan + frame: {main})");
+                }
             }
             if let Some(what) = scope_tag_oracle(&text) {
                 eprintln!("ORACLE-FAIL {lineno} [C04] scope tags: {what}");
